@@ -693,3 +693,56 @@ M("C06", "fe benign: float branch uses a loop", FI, """        memcpy(fe->overfl
             fe->overflow_samps[fe->num_overflow_samps + i] = sample;
         }
         *spch += *inout_nsamps;""", kind="benign")
+
+# ---- C07 ----------------------------------------------------------------------
+M("C07", "acmod: revert state fix", AC, "    if (acmod->state == ACMOD_STARTED && orig_n_frames - *inout_n_frames > 0)\n        acmod->state = ACMOD_PROCESSING;", "    if (acmod->state == ACMOD_STARTED)\n        acmod->state = ACMOD_PROCESSING;", "CENSUS.utt-state")
+M("C07", "acmod: int16 last write capacity (seed C07-1)", AC, """        if ((nvec = fe_process_int16(acmod->fe, inout_raw, inout_n_samps,
+                                     acmod->mfc_buf + inptr, ncep))
+            < 0)""", """        if ((nvec = fe_process_int16(acmod->fe, inout_raw, inout_n_samps,
+                                     acmod->mfc_buf + inptr, acmod->n_mfc_alloc - inptr))
+            < 0)""", "RING.capacity")
+M("C07", "acmod: rewind count (seed C07-2)", AC, "    acmod->n_feat_frame = acmod->output_frame + acmod->n_feat_frame;", "    acmod->n_feat_frame = acmod->output_frame + acmod->n_mfc_frame;", "GUARD.rewind")
+M("C07", "acmod: rewind allowed when wrapped", AC, "    if (acmod->output_frame > acmod->n_feat_alloc) {\n        E_ERROR(\"Circular", "    if (acmod->output_frame > 2 * acmod->n_feat_alloc) {\n        E_ERROR(\"Circular", "GUARD.rewind")
+M("C07", "acmod: mfcbuf outidx not wrapped", AC, "        acmod->mfc_outidx += ncep1;\n        acmod->mfc_outidx %= acmod->n_mfc_alloc;", "        acmod->mfc_outidx += ncep1;", "RING.index")
+M("C07", "acmod: inptr no modulo", AC, "        inptr = (acmod->feat_outidx + acmod->n_feat_frame) % acmod->n_feat_alloc;", "        inptr = (acmod->feat_outidx + acmod->n_feat_frame);", "RING.index")
+M("C07", "acmod: advance compares alloc+1", AC, "    if (++acmod->feat_outidx == acmod->n_feat_alloc)\n        acmod->feat_outidx = 0;", "    if (++acmod->feat_outidx > acmod->n_feat_alloc)\n        acmod->feat_outidx = 0;", "RING.index")
+M("C07", "acmod: float32 forgets count", AC, """                                       acmod->mfc_buf + inptr,
+                                       ncep))
+            < 0)
+            return -1;
+        acmod->n_mfc_frame += nvec;""", """                                       acmod->mfc_buf + inptr,
+                                       ncep))
+            < 0)
+            return -1;""", "RING.capacity")
+M("C07", "acmod: mask not restored on all paths", AC, "        /* Restore original state (could this really be the end) */\n        acmod->state = saved_state;", "        /* Restore original state (could this really be the end) */\n        if (ncep > 0) acmod->state = saved_state;", "CENSUS.utt-state")
+M("C07", "acmod: endutt flag in first half", AC, """                                     &ncep1,
+                                     (acmod->state == ACMOD_STARTED),
+                                     FALSE,""", """                                     &ncep1,
+                                     (acmod->state == ACMOD_STARTED),
+                                     (acmod->state == ACMOD_ENDED),""", "CENSUS.utt-state")
+M("C07", "feat: bufpos increment unwrapped", "src/feat.c", """        memcpy(fcb->cepbuf[fcb->bufpos++], uttcep[i],
+               cepsize * sizeof(mfcc_t));
+        fcb->bufpos %= LIVEBUFBLOCKSIZE;
+        ++nbufcep;""", """        memcpy(fcb->cepbuf[fcb->bufpos++], uttcep[i],
+               cepsize * sizeof(mfcc_t));
+        ++nbufcep;""", "RING.index")
+M("C07", "feat: replicate without input", "src/feat.c", "    if (beginutt && *inout_ncep > 0) {\n        for (i = 0; i < win; i++) {", "    if (beginutt) {\n        for (i = 0; i < win; i++) {", "CENSUS.utt-state")
+M("C07", "decoder: float32 process searches while buffering", DC, """        if ((nfr = acmod_process_float32(d->acmod, &data,
+                                         &n_samples, full_utt))
+            < 0)
+            return nfr;
+
+        /* Score and search as much data as possible */
+        if (no_search)
+            continue;""", """        if ((nfr = acmod_process_float32(d->acmod, &data,
+                                         &n_samples, full_utt))
+            < 0)
+            return nfr;
+""", "GUARD.rewind")
+M("C07", "acmod: full_float32 forgets fe_start", AC, """    acmod->n_mfc_frame = 0;
+    acmod->mfc_outidx = 0;
+    fe_start(acmod->fe);
+    if ((nvec = fe_process_float32(acmod->fe,""", """    acmod->n_mfc_frame = 0;
+    acmod->mfc_outidx = 0;
+    if ((nvec = fe_process_float32(acmod->fe,""", "TWIN.entry-points")
+M("C07", "decoder: start_utt accepts PROCESSING (seed C09-2)", DC, "    if (d->acmod->state == ACMOD_STARTED || d->acmod->state == ACMOD_PROCESSING) {", "    if (d->acmod->state == ACMOD_STARTED) {", "CENSUS.utt-state")
